@@ -540,3 +540,48 @@ func PathV(subs ...string) VPat {
 		return true
 	}}
 }
+
+// DerivedV matches a value computed only from constants and leaf values matching `leaf` (at least one), through
+// arithmetic, conversions and calls of statically resolved functions whose arguments are all derived the same way.
+func DerivedV(leaf VPat) VPat {
+	var rec func(v ssa.Value, depth int, hit *bool) bool
+	rec = func(v ssa.Value, depth int, hit *bool) bool {
+		if depth > 8 {
+			return false
+		}
+		if leaf.M(v) {
+			*hit = true
+			return true
+		}
+		switch x := v.(type) {
+		case *ssa.Const:
+			return true
+		case *ssa.BinOp:
+			return rec(x.X, depth+1, hit) && rec(x.Y, depth+1, hit)
+		case *ssa.Convert:
+			return rec(x.X, depth+1, hit)
+		case *ssa.ChangeType:
+			return rec(x.X, depth+1, hit)
+		case *ssa.UnOp:
+			if x.Op == token.MUL {
+				return false
+			}
+			return rec(x.X, depth+1, hit)
+		case *ssa.Call:
+			if x.Common().StaticCallee() == nil || x.Common().IsInvoke() {
+				return false
+			}
+			for _, a := range x.Common().Args {
+				if !rec(a, depth+1, hit) {
+					return false
+				}
+			}
+			return len(x.Common().Args) > 0
+		}
+		return false
+	}
+	return VPat{"f(" + leaf.Desc + ", constants)", func(v ssa.Value) bool {
+		hit := false
+		return rec(v, 0, &hit) && hit
+	}}
+}
